@@ -515,7 +515,30 @@ func (m *StateMachine) beginRoundLive(
 			"BUG: tsi.GetStepFromVoteSummary must not return tsi.StepAwaitingPrevotes",
 		))
 
-	case tsi.StepAwaitingPrecommits:
+	case tsi.StepPrevoteDelay:
+		// Majority prevote power is present but split, as in handleProposalViewUpdate:
+		// the strategy may still consider the proposed headers while the delay runs.
+		// The prevote delay timer is started in startInitialTimer.
+		if okPHs := m.rejectMismatchedProposedHeaders(initVRV.ProposedHeaders, rlc); len(okPHs) > 0 {
+			req := tsi.ConsiderProposedBlocksRequest{
+				PHs:    okPHs,
+				Result: rlc.PrevoteHashCh,
+			}
+			req.MarkReasonNewHashes(rlc)
+			req.Reason.MajorityVotingPowerPresent = true
+			if !gchan.SendC(
+				ctx, m.log,
+				m.cm.ConsiderProposedBlocksRequests, req,
+				"making consider proposed blocks request from initial state in prevote delay",
+			) {
+				// Context cancelled and logged. Quit.
+				return false
+			}
+		}
+
+	case tsi.StepAwaitingPrecommits, tsi.StepPrecommitDelay:
+		// In precommit delay, majority precommit power is present but split;
+		// we still owe our own precommit, and the delay timer is started in startInitialTimer.
 		if !gchan.SendC(
 			ctx, m.log,
 			m.cm.DecidePrecommitRequests, tsi.DecidePrecommitRequest{
@@ -565,6 +588,10 @@ func (m *StateMachine) startInitialTimer(ctx context.Context, rlc *tsi.RoundLife
 		rlc.StepTimer, rlc.CancelTimer = m.rt.ProposalTimer(ctx, rlc.H, rlc.R)
 	case tsi.StepAwaitingPrevotes, tsi.StepAwaitingPrecommits:
 		// No timer needed in these starting steps.
+	case tsi.StepPrevoteDelay:
+		rlc.StepTimer, rlc.CancelTimer = m.rt.PrevoteDelayTimer(ctx, rlc.H, rlc.R)
+	case tsi.StepPrecommitDelay:
+		rlc.StepTimer, rlc.CancelTimer = m.rt.PrecommitDelayTimer(ctx, rlc.H, rlc.R)
 	case tsi.StepCommitWait:
 		rlc.StepTimer, rlc.CancelTimer = m.rt.CommitWaitTimer(ctx, rlc.H, rlc.R)
 	default:
